@@ -136,7 +136,8 @@ pub fn jobs(tier: Tier, _seed: u64) -> Vec<Job> {
         Tier::Thorough => 600,
     });
     let cfg = base_cfg(tier);
-    let mut out = vec![];
+    // the Vec backend's connected components (the gluing step of this property when run on the Vec backend)
+    let mut out = super::c07::conformance_jobs(tier, &[3, 5]);
     let mut shs = shapes_for(tier);
     shs.sort_by_key(|s| s.refs());
     for sh in shs {
